@@ -27,6 +27,8 @@ func init() {
 			{"C10.ASSERT", "zzControlBad_C10_ASSERT", true},
 			{"C10.NILDEREF", "zzControlBad_C10_NILDEREF", true},
 			{"C10.NILDEREF", "zzControlGood_C10_NILDEREF", false},
+			{"C10.TERMINALNIL", "zzControlBad_C10_TERMINALNIL", true},
+			{"C10.TERMINALNIL", "zzControlGood_C10_TERMINALNIL", false},
 			{"C10.TABLEINDEX", "zzControlBad_C10_TABLEINDEX", true},
 			{"C10.TABLEINDEX", "zzControlGood_C10_TABLEINDEX", false},
 		},
@@ -37,6 +39,7 @@ func rulesC10(c *Ctx) {
 	ruleC10Assert(c)
 	ruleNilDeref(c, "C10.NILDEREF", c.prodFuncs("ast", "objectz", "boltz"))
 	c.Floor("C10.NILDEREF", 60)
+	ruleTerminalNil(c, "C10.TERMINALNIL")
 	ruleC10LexErr(c)
 	ruleC10Panic(c)
 	ruleC10NilRecv(c)
